@@ -28,6 +28,8 @@ N10 `for v in range(A, B): BODY; A = v + 1` with A, B access paths, where BODY h
     reads nor v, makes no impure call, and v is not used outside the loop, is `while A < B: BODY[v := A]; A += 1`: v equals A at
     the top of every iteration, and the range ends exactly when A reaches B.
 
+N12 `a, b = X, Y` with plain-name targets, neither of which is read by X or Y, is `a = X` ; `b = Y`.
+
 N6  A local bound once and used once, in the statement right after its binding and before anything else with an effect is
     evaluated there, is inlined (single-use temporaries).
 
@@ -375,6 +377,32 @@ def _guarded_equalities(fn, facts: dict) -> None:
                 break
 
 
+def _split_tuple_assign(fn) -> None:
+    """N12."""
+    def rewrite(seq: list[ast.stmt]) -> None:
+        i = 0
+        while i < len(seq):
+            st = seq[i]
+            for fld in ("body", "orelse", "finalbody"):
+                blk = getattr(st, fld, None)
+                if isinstance(blk, list) and blk and isinstance(blk[0], ast.stmt):
+                    rewrite(blk)
+            if isinstance(st, ast.Try):
+                for h in st.handlers:
+                    rewrite(h.body)
+            if isinstance(st, ast.Assign) and len(st.targets) == 1 and isinstance(st.targets[0], ast.Tuple) and isinstance(st.value, ast.Tuple) \
+                    and len(st.targets[0].elts) == len(st.value.elts) and all(isinstance(t, ast.Name) for t in st.targets[0].elts):
+                names = {t.id for t in st.targets[0].elts}
+                read = {n.id for v in st.value.elts for n in ast.walk(v) if isinstance(n, ast.Name)}
+                if len(names) == len(st.targets[0].elts) and not (names & read) and not any(isinstance(v, ast.Starred) for v in st.value.elts):
+                    new = [ast.copy_location(ast.Assign(targets=[t], value=v), st) for t, v in zip(st.targets[0].elts, st.value.elts)]
+                    seq[i:i + 1] = new
+                    i += len(new)
+                    continue
+            i += 1
+    rewrite(fn.body)
+
+
 def _range_loops(fn, facts: dict) -> None:
     """N10."""
     tuples = set((facts or {}).get("tuples", ()))
@@ -454,6 +482,9 @@ def normalise(mod: ast.Module, newtypes: set[str], fields: dict) -> ast.Module:
         for n in ast.walk(mod):
             if isinstance(n, (ast.FunctionDef, ast.AsyncFunctionDef)):
                 _copy_propagate(n, fields)
+    for n in ast.walk(mod):
+        if isinstance(n, (ast.FunctionDef, ast.AsyncFunctionDef)):
+            _split_tuple_assign(n)
     for n in ast.walk(mod):
         if isinstance(n, (ast.FunctionDef, ast.AsyncFunctionDef)):
             _range_loops(n, fields)
